@@ -82,6 +82,7 @@ def run_js(pid, tier, seed, replay=None, shards=NCPU, profile="checked", wall_s=
 def merge_js(run, results):
     errors = [r["harnessError"] for r in results if r.get("harnessError")]
     counts, matrices = {}, {}
+    listed = {k["finding"]: k["text"] for k in common.known_for(run.pid) if k.get("finding")}
     for r in results:
         run.evaluations += r.get("evaluations", 0)
         for s in r.get("shapes", []):
@@ -91,8 +92,12 @@ def merge_js(run, results):
         for v in r.get("violations", []):
             run.violation(v["summary"], v["witness"])
         for k, v in (r.get("known") or {}).items():
-            for _ in range(v["n"]):
-                run.known(k, v["text"])
+            if k in listed:
+                for _ in range(v["n"]):
+                    run.known(k, listed[k] or v["text"])
+            else:
+                # only findings listed in the committed KNOWN_FINDINGS.txt may suppress anything
+                run.violation(f"unlisted finding '{k}' matched {v['n']} case(s): {v['text']}", {"finding": k, "text": v["text"]})
         for x in r.get("inconclusive", []):
             run.inconclusive.append(x)
         for k, v in (r.get("counts") or {}).items():
